@@ -233,6 +233,13 @@ CAMPAIGNS.update({
                   ex(ph(LAYOUT), ph(["construct", "construct_bad"], True, "r"))]),
 })
 
+CAMPAIGNS["validator_mutations"] = model_campaign(
+    "validator_mutations", palettes=[["plain", "plain"], ["unicode", "adversarial"], ["numeric_ids", "plain"]], heaps="val",
+    quick=[ex(ph(["validate"], False)),                       # every single mutation, both formats, every base table
+           ex(ph(["validate"], True, pick=150))],             # a strided sample of the double mutations
+    thorough=[ex(ph(["validate"], True))],                    # every ordered double mutation
+    cap_thorough=200000)
+
 CAMPAIGNS["err_profile"] = {
     "name": "err_profile", "kind": "err", "judge": ["BiomErrTrace.tla", "BiomErrTrace.cfg"],
     "cfgs": {"quick": [{"depth": 2, "nest": 3, "pick": [0, 0]},
@@ -243,6 +250,9 @@ CAMPAIGNS["err_profile"] = {
                           {"depth": 8, "nest": 3, "pick": [8, 4, 3, 3, 2, 2, 2, 2]}]}}
 
 PROPERTIES = {
+    "C15": {"level": "fault_enumeration", "campaigns": [CAMPAIGNS["validator_mutations"]],
+            "assumptions": ["the mutated file is classified by harness/valdoc.py (json/h5py only, written against the "
+                            "format documents); a validator crash counts as 'not reported valid'"]},
     "C17": {"level": "model_checking", "campaigns": [CAMPAIGNS["constructions"]], "assumptions": []},
     "C19": {"level": "model_checking", "campaigns": [CAMPAIGNS["summaries"]], "assumptions": []},
     "C01": {"level": "model_checking", "campaigns": [CAMPAIGNS["hdf5_roundtrip"]], "assumptions": []},
